@@ -455,7 +455,9 @@ func c04Stems(r *run.Run) {
 				g.Cmds = append(g.Cmds, cff.GlyphOp{Op: cff.OpHintMask, Args: mk(5)})
 			}
 			g.LineTo(100, 100)
-			c.Sample(func() any { return map[string]any{"hstems": nh, "vstems": nv, "mask": mask, "own_width": ownWidth, "thirds": thirds} })
+			c.Sample(func() any {
+				return map[string]any{"hstems": nh, "vstems": nv, "mask": mask, "own_width": ownWidth, "thirds": thirds}
+			})
 			if nh+nv > 0 {
 				c.Nontrivial()
 			}
